@@ -1,6 +1,7 @@
 import TxVerif.Props.C02
 import TxVerif.Tie.Order
 import TxVerif.Tie.Skeleton
+import TxVerif.Props.C10C02Engine
 open TxVerif
 #print axioms isoInv_step
 #print axioms isoInv_reach
@@ -12,3 +13,8 @@ open TxVerif
 #print axioms Tie.tryCommit_lock_ops
 #print axioms Tie.beginTx_ops
 #print axioms Tie.txClose_ops
+#print axioms c02_writer_invisible
+#print axioms c02_reader_root
+#print axioms c02_reader_view
+#print axioms c02_writer_invisible_flush
+#print axioms c02_writer_invisible_end
